@@ -60,7 +60,10 @@ func (h *baseHandler) Done() <-chan struct{} {
 
 // Read is to send data to the dtail client via Reader interface.
 func (h *baseHandler) Read(p []byte) (n int, err error) {
-	defer h.readBuf.Reset()
+	// Hand out what is left of a message which didn't fit into p last time.
+	if h.readBuf.Len() > 0 {
+		return h.readBuf.Read(p)
+	}
 
 	select {
 	case message := <-h.serverMessages:
@@ -68,7 +71,7 @@ func (h *baseHandler) Read(p []byte) (n int, err error) {
 			// Handle hidden message (don't display to the user)
 			h.readBuf.WriteString(message)
 			h.readBuf.WriteByte(protocol.MessageDelimiter)
-			n = copy(p, h.readBuf.Bytes())
+			n, _ = h.readBuf.Read(p)
 			return
 		}
 
@@ -83,7 +86,7 @@ func (h *baseHandler) Read(p []byte) (n int, err error) {
 		h.readBuf.WriteString(protocol.FieldDelimiter)
 		h.readBuf.WriteString(message)
 		h.readBuf.WriteByte(protocol.MessageDelimiter)
-		n = copy(p, h.readBuf.Bytes())
+		n, _ = h.readBuf.Read(p)
 
 	case message := <-h.maprMessages:
 		// Send mapreduce-aggregated data as a message.
@@ -93,7 +96,7 @@ func (h *baseHandler) Read(p []byte) (n int, err error) {
 		h.readBuf.WriteString(protocol.FieldDelimiter)
 		h.readBuf.WriteString(message)
 		h.readBuf.WriteByte(protocol.MessageDelimiter)
-		n = copy(p, h.readBuf.Bytes())
+		n, _ = h.readBuf.Read(p)
 
 	case line := <-h.lines:
 		if !h.plain {
@@ -110,7 +113,7 @@ func (h *baseHandler) Read(p []byte) (n int, err error) {
 		}
 		h.readBuf.WriteString(line.Content.String())
 		h.readBuf.WriteByte(protocol.MessageDelimiter)
-		n = copy(p, h.readBuf.Bytes())
+		n, _ = h.readBuf.Read(p)
 		pool.RecycleBytesBuffer(line.Content)
 		line.Recycle()
 
